@@ -21,6 +21,7 @@ import (
 	"time"
 
 	"github.com/gopcua/opcua/ua"
+	"github.com/gopcua/opcua/uacp"
 
 	"verifharness/internal/h"
 	"verifharness/internal/srvx"
@@ -186,6 +187,8 @@ func scenarios(o *h.Opts, rnd *h.Rand) []*scen {
 		e.Do("missing", "getendpoints", &ua.GetEndpointsRequest{EndpointURL: "x"}, "")
 		e.Do("valid", "read", srvx.ReadReq(srvx.TestVar(), ua.AttributeIDValue), "")
 		e.Do("valid", "write 77", srvx.WriteValueReq(srvx.TestVar(), 77), "")
+		s.mustAnswer(e, "Read of a map-namespace variable", e.ChA.Do(srvx.ReadReq(srvx.TestMapVar(), ua.AttributeIDValue), nil, 6*time.Second))
+		s.mustAnswer(e, "Write of a map-namespace variable", e.ChA.Do(srvx.WriteValueReq(srvx.TestMapVar(), 9), nil, 6*time.Second))
 		e.Do("missing", "publish", srvx.PublishReq(), "")
 		e.Do("unknown", "publish", srvx.PublishReq(), "")
 		e.Do("valid2", "publish", srvx.PublishReq(), "")
@@ -463,6 +466,33 @@ func scenarios(o *h.Opts, rnd *h.Rand) []*scen {
 	// changes of the monitored node written over another connection
 	add("stalled-subscription", srvx.ChildSpec{}, func(s *scen, e *srvx.Episode) { s.stalledSubscription(e) })
 
+	// ---- raw frames straight after the handshake and on an open channel
+	add("raw-frames", srvx.ChildSpec{}, func(s *scen, e *srvx.Episode) { s.rawFrames(e) })
+
+	// ---- a node of a map-backed namespace: read, write, browse, monitored
+	add("map-namespace", srvx.ChildSpec{}, func(s *scen, e *srvx.Episode) {
+		e.Cast()
+		tok := e.Valid.Tok
+		m := srvx.TestMapVar()
+		s.mustAnswer(e, "Read of a map-namespace variable", e.ChA.Do(srvx.ReadReq(m, ua.AttributeIDValue), nil, 6*time.Second))
+		s.mustAnswer(e, "Write of a map-namespace variable", e.ChA.Do(srvx.WriteValueReq(m, 8), nil, 6*time.Second))
+		s.mustAnswer(e, "Browse of the map namespace's Objects folder", e.ChA.Do(srvx.BrowseReq(ua.NewNumericNodeID(2, 85), ua.NewNumericNodeID(0, 0), true, ua.BrowseDirectionBoth), nil, 6*time.Second))
+		res := e.Do("valid", "createsub huge", srvx.CreateSubReq(3600000, 100000, 100000), "")
+		cr, ok := res.Resp.(*ua.CreateSubscriptionResponse)
+		if !ok {
+			return
+		}
+		e.Do("valid", fmt.Sprintf("createitems %d 2", cr.SubscriptionID), srvx.CreateItemsReq(cr.SubscriptionID, 2, m), "monitored items on a map-namespace variable")
+		for i := 0; i < 5 && !e.Dead; i++ {
+			if !s.mustAnswer(e, fmt.Sprintf("Write #%d of the monitored map-namespace variable", i+1), e.ChA.Do(srvx.WriteValueReq(m, int32(20+i)), tok, 6*time.Second)) {
+				return
+			}
+		}
+		s.mustAnswer(e, "Read of the monitored map-namespace variable", e.ChB.Do(srvx.ReadReq(m, ua.AttributeIDValue), nil, 6*time.Second))
+		s.mustAnswer(e, "Write of a text variable of the map namespace", e.ChA.Do(srvx.WriteAttrReq(ua.NewStringNodeID(2, "t"), ua.AttributeIDValue, &ua.DataValue{EncodingMask: ua.DataValueValue, Value: ua.MustVariant("x")}), tok, 6*time.Second))
+		e.Do("valid", "delsubs "+ids(cr.SubscriptionID), srvx.DeleteSubsReq(cr.SubscriptionID), "")
+	})
+
 	// ---- channel level
 	add("signed-chunks", srvx.ChildSpec{}, func(s *scen, e *srvx.Episode) {
 		for _, n := range []int{12, 16, 17, 24, 31, 32, 40, 100} {
@@ -479,6 +509,113 @@ func scenarios(o *h.Opts, rnd *h.Rand) []*scen {
 	// ---- hang
 	add("nonreading-client", srvx.ChildSpec{}, func(s *scen, e *srvx.Episode) { s.nonReading(e) })
 	return out
+}
+
+// mustAnswer: a harmless request has to be answered (any answer); no answer = the dispatcher is stuck.
+func (s *scen) mustAnswer(e *srvx.Episode, what string, res srvx.Result) bool {
+	x := extra{Case: what, Impl: res.Class}
+	ok := true
+	if res.Class == "noresponse" || res.Class == "closed" {
+		ok = false
+		x.Bad = true
+		x.Detail = fmt.Sprintf("%s: %s", what, res.String())
+		if e.Child.WaitExit(time.Second) {
+			site, msg := e.Child.CrashSite()
+			x.Detail += fmt.Sprintf(" — the server process died in %s [%s]", site, msg)
+			e.Dead = true
+		} else if _, cerr := srvx.Canary(e.Child.URL, canaryBound); cerr != nil {
+			x.Detail += fmt.Sprintf(" — and a canary client is not answered either (%v): the dispatcher is blocked", cerr)
+			e.NoChannel = true
+		}
+	}
+	s.ex = append(s.ex, x)
+	return ok
+}
+
+// rawFrames sends frames that no client library produces, each on its own connection.
+func (s *scen) rawFrames(e *srvx.Episode) {
+	frame := func(typ string, declared uint32, total int) []byte {
+		b := make([]byte, total)
+		copy(b, typ)
+		if total >= 8 {
+			b[4], b[5], b[6], b[7] = byte(declared), byte(declared>>8), byte(declared>>16), byte(declared>>24)
+		}
+		for i := 8; i < total; i++ {
+			b[i] = byte(0xA0 + i)
+		}
+		return b
+	}
+	type fr struct {
+		name     string
+		b        []byte
+		declared uint32
+		afterOPN bool
+	}
+	var frames []fr
+	for _, n := range []int{8, 9, 10, 11, 12, 13, 16, 23, 24} {
+		frames = append(frames, fr{fmt.Sprintf("MSGF of %d bytes after HEL/ACK", n), frame("MSGF", uint32(n), n), uint32(n), false})
+	}
+	for _, n := range []int{8, 11, 12, 20, 40} {
+		frames = append(frames, fr{fmt.Sprintf("OPNF of %d bytes after HEL/ACK", n), frame("OPNF", uint32(n), n), uint32(n), false})
+	}
+	frames = append(frames,
+		fr{"CLOF of 8 bytes", frame("CLOF", 8, 8), 8, false},
+		fr{"unknown type XYZF of 8 bytes", frame("XYZF", 8, 8), 8, false},
+		fr{"unknown type XYZF of 16 bytes", frame("XYZF", 16, 16), 16, false},
+		fr{"MSGF declaring 4 bytes", frame("MSGF", 4, 8), 4, false},
+		fr{"MSGF declaring 0 bytes", frame("MSGF", 0, 8), 0, false},
+		fr{"MSGF declaring 4 GiB", frame("MSGF", 0xFFFFFFFF, 64), 0xFFFFFFFF, false},
+		fr{"MSGF declaring 100 bytes, 20 sent, then close", frame("MSGF", 100, 20), 100, false},
+		fr{"second HELF", frame("HELF", 32, 32), 32, false},
+	)
+	for _, n := range []int{8, 11, 12, 15, 16, 20, 23, 24, 30} {
+		frames = append(frames, fr{fmt.Sprintf("MSGF of %d bytes on an open channel", n), frame("MSGF", uint32(n), n), uint32(n), true})
+	}
+	frames = append(frames, fr{"MSGA of 12 bytes on an open channel", frame("MSGA", 12, 12), 12, true},
+		fr{"MSGC of 24 bytes on an open channel", frame("MSGC", 24, 24), 24, true})
+	for _, f := range frames {
+		if e.Dead {
+			return
+		}
+		ctx, cancel := context.WithTimeout(context.Background(), 10*time.Second)
+		var conn *uacp.Conn
+		if f.afterOPN {
+			rc, err := srvx.OpenRawNone(ctx, e.Child.URL)
+			if err != nil {
+				cancel()
+				e.Infra = "raw channel: " + err.Error()
+				return
+			}
+			conn = rc.Conn
+			// the frame must name the channel it arrives on
+			if len(f.b) >= 12 {
+				f.b[8], f.b[9], f.b[10], f.b[11] = byte(rc.ChannelID), byte(rc.ChannelID>>8), byte(rc.ChannelID>>16), byte(rc.ChannelID>>24)
+			}
+			if len(f.b) >= 16 {
+				f.b[12], f.b[13], f.b[14], f.b[15] = byte(rc.TokenID), byte(rc.TokenID>>8), byte(rc.TokenID>>16), byte(rc.TokenID>>24)
+			}
+		} else {
+			c, err := uacp.Dial(ctx, e.Child.URL)
+			if err != nil {
+				cancel()
+				e.Infra = "dial: " + err.Error()
+				return
+			}
+			conn = c
+		}
+		conn.Write(f.b)
+		x := extra{Line: fmt.Sprintf("rawframe %d", f.declared), Case: f.name, Impl: "noresponse"}
+		if e.Child.WaitExit(250 * time.Millisecond) {
+			site, msg := e.Child.CrashSite()
+			x.Impl = "crash " + site
+			x.Bad = true
+			x.Detail = fmt.Sprintf("%s kills the server process in %s [%s]", f.name, site, msg)
+			e.Dead = true
+		}
+		s.ex = append(s.ex, x)
+		conn.Close()
+		cancel()
+	}
 }
 
 // oracleOnly records a step the model does not describe: only liveness counts.
@@ -861,7 +998,7 @@ func main() {
 		r.Notes = append(r.Notes, "scenarios that took more than 10 s: "+strings.Join(slow, ", "))
 	}
 	var want []string
-	want = append(want, "canary-ok", "out:ok", "out:fault", "extra:hang:blocked", "extra:notify:blocked", "extra:notifyafterclose:blocked", "extra:signedchunk:noresponse", "extra:browsecls:plain")
+	want = append(want, "canary-ok", "out:ok", "out:fault", "extra:hang:blocked", "extra:notify:blocked", "extra:notifyafterclose:blocked", "extra:rawframe:noresponse", "extra:signedchunk:noresponse", "extra:browsecls:plain")
 	sort.Strings(want)
 	for _, b := range want {
 		if r.Distribution[b] == 0 && o.Replay == "" {
